@@ -69,6 +69,8 @@ pub fn generate(prop: &str, rng: &mut Rng, n: usize) -> Vec<Case> {
     let mut out = Vec::new();
     match prop {
         "C01" => gen_c01(rng, n, &mut out),
+        "C04" | "C05" => gen_c04(rng, n, &mut out),
+        "C06" => gen_c06(rng, n, &mut out),
         "C07" => gen_c07(rng, n, &mut out),
         "C09" => gen_c09(rng, n, &mut out),
         "C10" => gen_c10(rng, n, &mut out),
@@ -93,6 +95,8 @@ pub fn run_case(c: &Case) -> Option<String> {
     if let Some(rest) = k.strip_prefix("c14_poly") { return run_c14_poly(rest.parse().ok()?, &p); }
     if k == "c14_quartic" { return run_c14_quartic(&p); }
     if k == "c14_polyn" { return run_c14_polyn(&p); }
+    if k == "c04_spline" { return run_c04(&p); }
+    if k == "c06_linear" { return run_c06(&p); }
     Some(format!("unknown case kind {}", k))
 }
 
@@ -676,5 +680,146 @@ fn gen_c14(rng: &mut Rng, n: usize, out: &mut Vec<Case>) {
                 out.push(case(&format!("c14_poly{}", deg), &v));
             }
         }
+    }
+}
+
+// ------------------------------------------------------------------------------------- C04 / C05
+fn knots_of(p: &[f64]) -> Vec<Knot> { p.chunks(2).map(|c| Knot { x: c[0], y: c[1] }).collect() }
+fn run_c04(p: &[f64]) -> Option<String> {
+    let ks = knots_of(p);
+    let n = ks.len();
+    let sp = constrained_spline(&ks);
+    if sp.segments.len() != n - 1 { return Some(format!("{} cubics for {} knots", sp.segments.len(), n)); }
+    // reference slopes in DD
+    let sec = |i: usize| DD::from(ks[i + 1].y).sub(DD::from(ks[i].y)).div(DD::from(ks[i + 1].x).sub(DD::from(ks[i].x)));
+    let mut f: Vec<DD> = vec![DD::from(0.0); n];
+    for i in 1..n - 1 {
+        let (a, b) = (sec(i - 1), sec(i));
+        let prod = a.mul(b).to_f64();
+        f[i] = if prod <= 0.0 { DD::from(0.0) } else { DD::from(2.0).mul(a).mul(b).div(a.add(b)) };
+    }
+    f[0] = DD::from(1.5).mul(sec(0)).sub(DD::from(0.5).mul(f[1]));
+    f[n - 1] = DD::from(1.5).mul(sec(n - 2)).sub(DD::from(0.5).mul(f[n - 2]));
+    for i in 0..n - 1 {
+        let s = &sp.segments[i];
+        if s.end.to_bits() != ks[i + 1].x.to_bits() { return Some(format!("end of cubic {} is {:e}, right abscissa is {:e}", i, s.end, ks[i + 1].x)); }
+        let c = s.poly.0;
+        if c.iter().any(|v| !v.is_finite()) { return Some(format!("cubic {} has a non-finite coefficient {:?}", i, c)); }
+        let dx = (ks[i + 1].x - ks[i].x).abs();
+        let xm = ks[i].x.abs().max(ks[i + 1].x.abs()).max(dx);
+        let cond = (xm / dx).powi(3).max(1.0);
+        // the construction's intermediate terms live at BOTH knots (a is computed from b*x0, c*x0^2, d*x0^3)
+        let mag_all = polyval_dd(&c, ks[i].x).1.max(polyval_dd(&c, ks[i + 1].x).1).max(ks[i].y.abs()).max(ks[i + 1].y.abs());
+        let dmag_all = {
+            let dc = [c[1], 2.0 * c[2], 3.0 * c[3]];
+            polyval_dd(&dc, ks[i].x).1.max(polyval_dd(&dc, ks[i + 1].x).1)
+        };
+        for (j, k) in [(i, ks[i]), (i + 1, ks[i + 1])] {
+            let (v, _mag) = polyval_dd(&c, k.x);
+            let scale = mag_all.max(1e-300);
+            let err = v.sub(DD::from(k.y)).abs().to_f64();
+            if !(err <= 1024.0 * U * scale * cond) { return Some(format!("cubic {} at knot {}: value {:e}, ordinate {:e} (|diff| {:e})", i, j, v.to_f64(), k.y, err)); }
+            // derivative b + 2 c x + 3 d x^2
+            let dc = [c[1], 2.0 * c[2], 3.0 * c[3]];
+            let (dv, _dmag) = polyval_dd(&dc, k.x);
+            let derr = dv.sub(f[j]).abs().to_f64();
+            let dscale = dmag_all.max(f[j].to_f64().abs()).max(sec(i).to_f64().abs()).max(mag_all / dx);
+            if !(derr <= 4096.0 * U * dscale * cond + 1e-300) {
+                return Some(format!("cubic {} at knot {}: slope {:e}, prescribed (Kruger) slope {:e} (|diff| {:e})", i, j, dv.to_f64(), f[j].to_f64(), derr));
+            }
+        }
+        // C05: monotone on the interval and between the ordinates (checked at the critical points of the derivative and a grid)
+        let (ya, yb) = (ks[i].y.min(ks[i + 1].y), ks[i].y.max(ks[i + 1].y));
+        let span = (yb - ya).max(1e-300);
+        for t in 0..=32 {
+            let x = ks[i].x + (ks[i + 1].x - ks[i].x) * (t as f64 / 32.0);
+            let (v, mag) = polyval_dd(&c, x);
+            let slack = 1024.0 * U * mag.max(mag_all) * cond + 1e-9 * span;
+            let vv = v.to_f64();
+            if !(vv >= ya - slack && vv <= yb + slack) { return Some(format!("overshoot: cubic {} at x={:e} is {:e}, outside [{:e},{:e}]", i, x, vv, ya, yb)); }
+        }
+    }
+    None
+}
+fn gen_c04(rng: &mut Rng, n: usize, out: &mut Vec<Case>) {
+    let shapes: Vec<Vec<(f64, f64)>> = vec![
+        vec![(0.0, 0.0), (1.0, 1.0), (2.0, 2.0), (3.0, 3.0)],
+        vec![(0.0, 0.0), (1.0, 1.0), (2.0, 0.0), (3.0, 1.0), (4.0, 0.0)],
+        vec![(0.0, 0.0), (1.0, 0.0), (2.0, 1.0), (3.0, 1.0), (4.0, 2.0)],
+        vec![(0.0, 0.0), (1.0, 2.0), (2.0, 3.0), (3.0, 7.0), (4.0, 7.5), (5.0, 12.0), (6.0, 13.0)],
+        vec![(0.0, 1.0), (1.0, 2.0), (2.0, 6.0), (3.0, 7.0), (4.0, 8.0)],
+        vec![(0.0, 0.0), (1.0, 1e-8), (2.0, 2e-8), (3.0, 3e-8)],
+        vec![(0.0, 0.0), (1.0, 1e-8), (2.0, 3e-8), (3.0, 3.5e-8), (4.0, 5e-8)],
+        vec![(0.0, 0.0), (1.0, 1e-160), (2.0, 0.5e-160), (3.0, 1e-160)],
+        vec![(0.0, 0.0), (1.0, 1e-170), (2.0, 0.0), (3.0, 1e-170)],
+        vec![(0.0, 0.0), (1.0, 1e-165), (2.0, -1e-170), (3.0, 1.0)],
+        vec![(1.0, 5.0), (2.0, 3.0), (4.0, 3.0)],
+        vec![(0.0, 0.0), (0.5, 4.0), (3.0, 5.0), (3.5, 9.0), (10.0, 9.5), (11.0, 20.0)],
+        vec![(100.0, 1.0), (101.0, 2.0), (102.0, 1.5), (103.0, 4.0)],
+    ];
+    for sh in shapes.iter() { let v: Vec<f64> = sh.iter().flat_map(|(x, y)| vec![*x, *y]).collect(); out.push(case("c04_spline", &v)); }
+    while out.len() < n {
+        let k = 3 + rng.below(6) as usize;
+        let mut x = (rng.below(21) as f64) - 10.0;
+        let mut v = Vec::new();
+        let mut y = rng.float();
+        for _ in 0..k {
+            v.push(x); v.push(y);
+            x += match rng.below(4) { 0 => 1.0, 1 => 0.25 + rng.unit(), 2 => 1e-3 + rng.unit() * 1e-2, _ => 1.0 + rng.below(5) as f64 };
+            y = match rng.below(5) { 0 => y, 1 => y + rng.unit(), 2 => y - rng.unit(), 3 => y + (rng.unit() - 0.5) * 1e-6, _ => rng.float() };
+        }
+        out.push(case("c04_spline", &v));
+    }
+}
+
+// ------------------------------------------------------------------------------------------- C06
+fn run_c06(p: &[f64]) -> Option<String> {
+    let ks = knots_of(p);
+    let n = ks.len();
+    let l = linear(&ks);
+    if l.segments.len() != n - 1 { return Some(format!("{} segments for {} knots", l.segments.len(), n)); }
+    let mut fx = ks[0].x;
+    let mut fy = ks[0].y;
+    for i in 0..n - 1 {
+        let nx = if ks[i + 1].x > fx { ks[i + 1].x } else { fx };
+        let ny = ks[i + 1].y;
+        let s = &l.segments[i];
+        if !(s.end == nx) { return Some(format!("end of segment {} is {:e}, running maximum of the abscissae is {:e}", i, s.end, nx)); }
+        let c = s.poly.0;
+        let dx = nx - fx;
+        let at = |x: f64| polyval_dd(&c, x);
+        let (v0, m0) = at(fx);
+        if !(v0.sub(DD::from(fy)).abs().to_f64() <= 16.0 * U * m0.max(fy.abs()) + 1e-300) { return Some(format!("segment {} at its left knot ({:e},{:e}) evaluates to {:e}", i, fx, fy, v0.to_f64())); }
+        if dx >= f64::EPSILON {
+            let (v1, m1) = at(nx);
+            let cond = ((fx.abs().max(nx.abs())) / dx).max(1.0);
+            if !(v1.sub(DD::from(ny)).abs().to_f64() <= 16.0 * U * m1.max(ny.abs()).max(fy.abs()) * cond + 1e-300) { return Some(format!("segment {} (width {:e} >= eps) at its right knot ({:e},{:e}) evaluates to {:e}", i, dx, nx, ny, v1.to_f64())); }
+        } else if c[1] != 0.0 || c[0].to_bits() != fy.to_bits() && !(c[0] == fy) {
+            return Some(format!("segment {} is narrower than machine epsilon ({:e}) but is not the constant {:e}: {:?}", i, dx, fy, c));
+        }
+        fx = nx; fy = ny;
+    }
+    None
+}
+fn gen_c06(rng: &mut Rng, n: usize, out: &mut Vec<Case>) {
+    let e = f64::EPSILON;
+    let shapes: Vec<Vec<(f64, f64)>> = vec![
+        vec![(0.0, 0.0), (1.0, 1.0), (2.0, 2.0)],
+        vec![(0.0, 2.0), (e, 3.0)], vec![(1.0, 2.0), (1.0 + e, 3.0)], vec![(0.0, 2.0), (e * 0.5, 3.0)], vec![(0.0, 0.0), (e * 0.75, 1.0), (1.0, 2.0)],
+        vec![(0.0, 0.0), (0.25 * e, 1.0), (0.5 * e, 2.0), (0.75 * e, 3.0), (1.0, 4.0)],
+        vec![(1.0, 1.0), (1.0, 1.0), (2.0, 3.0)], vec![(1.0, 1.0), (1.0, 1.0)],
+        vec![(0.0, 0.0), (2.0, 1.0), (1.0, 5.0), (3.0, 2.0)], vec![(3.0, 0.0), (2.0, 1.0), (1.0, 5.0)],
+        vec![(-5.0, 1.0), (-4.0, -1.0), (-4.5, 3.0), (0.0, 0.0)], vec![(1e9, 1.0), (1e9 + 1.0, 2.0), (1e9 + 3.0, -2.0)],
+    ];
+    for sh in shapes.iter() { let v: Vec<f64> = sh.iter().flat_map(|(x, y)| vec![*x, *y]).collect(); out.push(case("c06_linear", &v)); }
+    while out.len() < n {
+        let k = 2 + rng.below(5) as usize;
+        let mut v = Vec::new();
+        let mut x = rng.float();
+        for _ in 0..k {
+            v.push(x); v.push(rng.float());
+            x = match rng.below(6) { 0 => x, 1 => x + e * (rng.below(5) as f64) * 0.25 * x.abs().max(1.0), 2 => x - rng.unit(), 3 => x + e * 0.5, _ => x + rng.unit() * 3.0 };
+        }
+        out.push(case("c06_linear", &v));
     }
 }
